@@ -202,6 +202,29 @@ func init() {
 				r, a[0].term, a[1].term, i, h, e.q.idxOf(a[0].term, i), e.q.idxOf(a[1].term, i)))
 			return Value{term: r, typ: boolT}
 		},
+		// reflect.Value.Len(): a non-negative number that depends only on the value
+		"(reflect.Value).Len": func(e *Enc, fr *frame, st *State, a []Value, p string, rt types.Type) Value {
+			so := e.u.sortOf(a[0].typ)
+			e.v.declFun("refl_len", "("+so+") Int")
+			r := e.q.define(p, sortInt, "(refl_len "+a[0].term+")")
+			st.assume("(and (<= 0 " + r + ") (<= " + r + " 4611686018427387904))")
+			return Value{term: r, typ: rt}
+		},
+		"context.Background": func(e *Enc, fr *frame, st *State, a []Value, p string, rt types.Type) Value {
+			r := e.freshValue(st, p, rt)
+			st.assume("(not (= (itag " + r.term + ") 0))")
+			return r
+		},
+		"context.WithTimeout": func(e *Enc, fr *frame, st *State, a []Value, p string, rt types.Type) Value {
+			r := e.freshValue(st, p, rt)
+			st.assume("(and (not (= (itag " + r.tuple[0].term + ") 0)) (not (= " + r.tuple[1].term + " 0)))")
+			return r
+		},
+		"context.WithCancel": func(e *Enc, fr *frame, st *State, a []Value, p string, rt types.Type) Value {
+			r := e.freshValue(st, p, rt)
+			st.assume("(and (not (= (itag " + r.tuple[0].term + ") 0)) (not (= " + r.tuple[1].term + " 0)))")
+			return r
+		},
 		"math/rand.New": func(e *Enc, fr *frame, st *State, a []Value, p string, rt types.Type) Value {
 			r := e.freshValue(st, p, rt)
 			st.assume("(not (= " + r.term + " 0))")
